@@ -610,6 +610,9 @@ func GenerateRun(seed uint64, opt GenOptions) (*World, []Op) {
 	}
 	g.ingKeys = g.subset(filterKeys(ingressAnnotations, opt.IngressKeys, opt.ExcludeIngressKeys), n)
 	g.svcKeys = g.subset(filterKeys(serviceAnnotations, opt.ServiceKeys, nil), 2)
+	if g.opt.Avoid["no_strict_host"] {
+		opt.ExcludeGlobalKeys = append(append([]string{}, opt.ExcludeGlobalKeys...), "strict-host")
+	}
 	g.glbKeys = g.subset(filterKeys(globalKeys, opt.GlobalKeys, opt.ExcludeGlobalKeys), 4)
 
 	g.world = &World{DNS: map[string][]string{"authhost.local": {"10.7.7.7"}, "ext.local": {"10.6.6.6", "10.6.6.7"}}}
